@@ -96,6 +96,10 @@ func runC18(c *Ctx) {
 				tgScripted(c, rp0.Seed, &cases)
 			case "threadgroup-stress":
 				tgStress(c, rp0.Seed)
+			case "threadgroup-race":
+				tgRace(c, rp0.Seed)
+			case "close-while-connecting":
+				closeWhileConnecting(c, rp0.Seed, rp0.Variant)
 			case "rhp4-shutdown":
 				rhp4Shutdown(c, rp0.Seed, rp0.Variant, &cases)
 			case "wallet-shutdown":
@@ -158,6 +162,12 @@ func runC18(c *Ctx) {
 		stressRun(c, c.R.U64(), cfg, i)
 	}
 	res.Notes = append(res.Notes, fmt.Sprintf("stress: %d runs in %.1fs", nStress, time.Since(t2).Seconds()))
+
+	tc := time.Now()
+	for i := 0; i < c.Scale(32, 320) && !giveUp("close-while-connecting"); i++ {
+		closeWhileConnecting(c, c.R.U64(), i)
+	}
+	res.Notes = append(res.Notes, fmt.Sprintf("close while connecting: %.1fs", time.Since(tc).Seconds()))
 
 	t3 := time.Now()
 	runShutdown(c, &cases)
